@@ -12,6 +12,7 @@ A case = one call of save() in a scratch directory:
 """
 import copy
 import json
+import os
 
 from tie.framework import g_bool, g_list, g_nat, g_str, run_impl_parallel
 
@@ -22,11 +23,13 @@ RULE = ("a systematic sweep (one nested configuration with 4 sub-files x single/
         "dump_using_format call} x {nothing, each target, all targets, a directory in the way} pre-existing), a deterministic list of "
         "special shapes (two sub-configs with one basename, a sub-file named like the main file, a save_path_content file "
         "saved onto itself / from elsewhere / whose source is gone, the last serialisation failing with every target "
-        "pre-existing, an existing target x overwrite on/off x each of the 9 spellings of the target) plus seeded "
+        "pre-existing, an existing target x overwrite on/off x each of the 10 spellings of the target, the fsspec branch "
+        "(local://dir/x) x flags x pre-existing target (content / empty / directory) x every failing point of dump(), targets "
+        "no Path accepts (null byte, a non-path object), '-' as a file name, an EMPTY content file) plus seeded "
         "random configurations (0-4 sub-files of 4 kinds, nesting, dotted keys, colliding basenames, same-directory layout, "
         "save over the loaded file, json format, missing target directory, two simultaneous faults, 20% with the target path "
-        "spelled as ./x, ../out/x, dir//x, through a symlink, ~/out/x, file://dir/x, or a Path_fc object whose cwd is not "
-        "the process cwd); a case is "
+        "spelled as ./x, ../out/x, dir//x, through a symlink, ~/out/x, file://dir/x, a Path_fc object whose cwd is not "
+        "the process cwd, the fsspec URL local://dir/x, a name with a null byte, a non-path object); a case is "
         "non-trivial when it has a sub-file, a fault or a pre-existing target; distinct = distinct "
         "(flags, declaration shape, faults, pre-existing entries, outcome)")
 TRUSTED = [
@@ -39,7 +42,8 @@ TRUSTED = [
 ]
 ASSUMPTIONS = [
     "the target directory is flat and local (no symlinks among its entries, no permission bits - the harness runs as root, "
-    "no fsspec / URL targets); the form of the target path (plain, ./x, ../d/x, d//x, through a symlinked directory) is part "
+    "no remote targets; an fsspec URL naming a local file, local://dir/x, IS an input: c_kind = TFsspec, with the directory "
+    "existing - fsspec creates missing directories itself, which a flat directory cannot show); the form of the target path (plain, ./x, ../d/x, d//x, through a symlinked directory) is part "
     "of the input (i_alias); model and spec speak about the FILE the target resolves to, whatever its spelling (~/x, "
     "file://..., a Path object with its own cwd are exercised by the harness and resolve to the same model input)",
     "failures considered: refused or uncreatable target, invalid configuration, failing serialisation, unreadable "
@@ -55,8 +59,14 @@ EXHAUSTIVE = {"quick": False, "thorough": False}
 # strings and is defeated by a target path given as ./main.yaml, ../d/main.yaml, d//main.yaml or through a symlink.
 # When fixes/C18-collision-realpath.patch is applied in /repo:  FINDING_CLASSES = {}  and  JUDGE = "judge_fixed"
 # (the model then ignores the form of the target path), and the open: line in known_findings/C18.txt becomes fixed:.
-FINDING_CLASSES = {}
+# Round 6, open (class 2): a target given as an fsspec URL naming a local file (local://<dir>/x) goes through save's
+# fsspec branch, which has no overwrite check, opens the file before dump() and is preceded by Path(path, "sw")
+# whose "w" check opens the file for writing. When fixes/C18-fsspec-target.patch is applied in /repo:
+# FINDING_CLASSES = {}  and  JUDGE = "judge_fsfixed", and the open: line in known_findings/C18.txt becomes fixed:.
+FINDING_CLASSES = {2: "fsspec-target-unprotected"}
 JUDGE = "judge_fixed"
+if os.environ.get("VERIF_C18_FSFIXED"):  # to try a tree that has the patch without editing this file
+    FINDING_CLASSES, JUDGE = {}, "judge_fsfixed"
 
 JSONNET_TEXT = '{"c": 3, "d": 2+2}'
 
@@ -114,11 +124,17 @@ def mk_case(decl, multifile=True, overwrite=False, skipval=False, fmt="yaml", ma
 # how the target is spelled; the file meant is always <target dir>/<main>. The first five differ in the form of the
 # path string; the last four are spellings that Path resolves (expanduser, file:// scheme, a Path object with its own
 # cwd) but that do not name the file when handed to os.path.* as they are.
-VIAS = ["plain", "dot", "dotdot", "slash", "link", "tilde", "fileurl", "pathobj", "chdir"]
+VIAS = ["plain", "dot", "dotdot", "slash", "link", "tilde", "fileurl", "pathobj", "chdir", "fsspec"]
+# targets no Path accepts (PathError before anything is looked at), and "-" (Path's spelling of standard output,
+# which save() nevertheless opens as the file <cwd>/-; only used with main == "-")
+VIAS_REJECTED = ["nul", "badtype"]
 VIA_SHOW = {"plain": "'<dir>/%s'", "dot": "'./%s'", "dotdot": "'../out/%s'", "slash": "'<dir>//%s'", "link": "'<symlink to dir>/%s'",
             "tilde": "'~/out/%s' (HOME = parent of <dir>)", "fileurl": "'file://<dir>/%s'",
             "pathobj": "Path_fc('%s', cwd=<dir>) with the process elsewhere",
-            "chdir": "Path_fc('%s') created inside <dir>, used after os.chdir away"}
+            "chdir": "Path_fc('%s') created inside <dir>, used after os.chdir away",
+            "fsspec": "'local://<dir>/%s' (an fsspec URL naming the file)",
+            "nul": "'<dir>/ma\\0in%s' (null byte in the name)", "badtype": "12345 (not a path; file meant: %s)",
+            "dash": "'%s' from inside <dir>"}
 
 
 SWEEP_DECL = [
@@ -190,6 +206,27 @@ def sweep_special():
                     cases.append(mk_case(decl, multifile, overwrite, pre=[["main.yaml", "file", "my only copy\n"]], via=via))
                 cases.append(mk_case(plain_decl, multifile, overwrite, pre=[["main.yaml", "file", ""]], via=via))
                 cases.append(mk_case(plain_decl, multifile, overwrite, pre=[["main.yaml", "dir"]], via=via))
+    # the fsspec branch: every flag combination x pre-existing target (content / empty / directory / none) x every
+    # point at which dump() can fail x missing directory
+    for decl in (plain_decl, clash_decls[0][:2]):
+        for multifile in (True, False):
+            for overwrite in (False, True):
+                for pre in ([], [["main.yaml", "file", "my only copy\n"]], [["main.yaml", "file", ""]], [["main.yaml", "dir"]],
+                            [["main.yaml", "file", "my only copy\n"], ["other.txt", "file", "keep"]]):
+                    for fl in ([], [["invalid", "k"]], [["failcall", 0]], [["unser", "anyv"]] if decl is plain_decl else [["failcall", 1]]):
+                        for skipval in (False, True):
+                            if skipval and not fl:
+                                continue
+                            cases.append(mk_case(decl, multifile, overwrite, skipval, pre=pre, faults=fl, via="fsspec"))
+    # targets that are rejected before anything is looked at; "-" is a file name like any other
+    for via in VIAS_REJECTED + ["dash"]:
+        main = "-" if via == "dash" else "main.yaml"
+        for decl in (plain_decl, clash_decls[0][:2]):
+            for multifile in (True, False):
+                for overwrite in (False, True):
+                    for pre in ([], [[main, "file", "my only copy\n"]]):
+                        for fl in ([], [["invalid", "k"]]):
+                            cases.append(mk_case(decl, multifile, overwrite, main=main, pre=pre, faults=fl, via=via))
     # the form of the target path must not matter otherwise
     for via in VIAS[1:]:
         for multifile in (True, False):
@@ -212,6 +249,12 @@ def sweep_special():
                 for fl in faultsets:
                     for pre in pres:
                         cases.append(mk_case(pc_decl, True, overwrite, main=main, layout=layout, pre=pre, faults=fl))
+    # a content file that is EMPTY (the file must still be produced / replaced)
+    for text in ("", "precious"):
+        e_decl = [it_int("k", 3), it_pathc("pc.path", text, "file.txt", "a"), sub("s1", "s1.yaml", "")]
+        for overwrite in (False, True):
+            for pre in ([], [["file.txt", "file", "old file"]]):
+                cases.append(mk_case(e_decl, True, overwrite, pre=pre))
     # everything pre-existing, overwrite=True, the last step (serialisation of the main configuration) fails
     late = [it_any("anyv"), it_int("k", 3), sub("s1", "s1.yaml", "a"), it_dict("d1", {"a": 1, "b": 2}, "d1.yaml"),
             it_jsonnet("jn", "j.jsonnet", "b")]
@@ -270,7 +313,7 @@ def gen_items(rng, depth, used, layout, want_clash):
         elif kind == "jsonnet":
             items.append(it_jsonnet(name, f, d or ""))
         else:
-            items.append(it_pathc(name, rng.choice(["precious", "line1\nline2\n"]), f, d or ""))
+            items.append(it_pathc(name, rng.choice(["precious", "line1\nline2\n", ""]), f, d or ""))
     rng.shuffle(items)
     return items
 
@@ -324,10 +367,12 @@ def gen_random(rng):
     elif anys:
         faults.append(["invalid", rng.choice(ints)])
         faults.append(rng.choice([["unser", rng.choice(anys)], ["failcall", rng.randrange(ncalls + 1)]]))
+    via = rng.choice(VIAS[1:] + VIAS_REJECTED) if rng.random() < 0.24 else "plain"
+    # (fsspec.open creates missing directories itself: nested result, outside the flat directory model)
+    dir_ok = rng.random() > 0.04 or via == "fsspec"
     return mk_case(decl, multifile=multifile, overwrite=rng.random() < 0.55, skipval=rng.random() < 0.15,
-                   fmt="json" if rng.random() < 0.12 else "yaml", main=main, dir_ok=rng.random() > 0.04, layout=layout,
-                   input_main=input_main, pre=pre, faults=faults,
-                   via=rng.choice(VIAS[1:]) if rng.random() < 0.2 else "plain")
+                   fmt="json" if rng.random() < 0.12 else "yaml", main=main, dir_ok=dir_ok, layout=layout,
+                   input_main=input_main, pre=pre, faults=faults, via=via)
 
 
 def generate(rng, tier):
@@ -378,11 +423,13 @@ def term(case, obs):
     fc = [f[1] for f in case["faults"] if f[0] == "failcall"]
     inp = ("{| i_multifile := %s; i_overwrite := %s; i_skipval := %s; i_dir_ok := %s; i_alias := %s; i_main := %s; i_fs := %s; "
            "i_valid := %s; i_full := %s; i_subs := %s; i_mainr := %s; i_failcall := %s |}") % (
-        g_bool(case["multifile"]), g_bool(case["overwrite"]), g_bool(case["skipval"]), g_bool(case["dir_ok"]),
+        g_bool(case["multifile"]), g_bool(case["overwrite"]), g_bool(case["skipval"]), g_bool(obs.get("path_ok", case["dir_ok"])),
         g_bool(obs["alias"]), g_str(case["main"]), g_fs(obs["before"]), g_bool(obs["valid"]), g_outcome(obs["full"]), subs,
         g_outcome(obs["mainr"]), "(Some %s)" % g_nat(fc[0]) if fc else "None")
     res = {"ok": "KOk", "path": "KPath", "refuse": "KRefuse", "fail": "KFail"}[obs["res"]]
-    return "{| c_in := %s; c_res := %s; c_fs := %s; c_reparse := %s |}" % (inp, res, g_fs(obs["after"]), g_bool(bool(obs["reparse"])))
+    kind = "TFsspec" if obs.get("kind") == "fsspec" else "TLocal"
+    return "{| c_kind := %s; c_in := %s; c_res := %s; c_fs := %s; c_reparse := %s |}" % (
+        kind, inp, res, g_fs(obs["after"]), g_bool(bool(obs["reparse"])))
 
 
 def shape(items):
@@ -462,6 +509,25 @@ def shrink(case):
             yield c
 
 
+def search(rng, tier, broken):
+    """After a broken proof / tie: ONE fresh quick-sized batch (under a minute), whatever the tier; the smallest case that
+    contradicts the spec inside the guard (or outside it in a class that is not a listed finding) is the failing input."""
+    import sys
+
+    from tie import framework as F
+
+    mod = sys.modules[__name__]
+    cases = sweep_special() + [gen_random(rng) for _ in range(600)]
+    obs = observe(cases)
+    bm, bi, bo = F.judge_cases(mod, cases, obs, tag="f")
+    known = F.load_known_findings(PROP)
+    bad = set(bi) | {i for i, k in bo if FINDING_CLASSES.get(k) not in known}
+    if not bad:
+        return None
+    i = min(bad, key=lambda j: (len(json.dumps(cases[j]["decl"])), len(cases[j]["pre"]), len(cases[j]["faults"])))
+    return {"case": cases[i], "observed": obs[i], "explain": describe(cases[i], obs[i])}
+
+
 META = {
     "level_text": "Theorems in coq/Properties/C18.v about save_fixed, the step-list model of ArgumentParser.save (check and "
                   "render every file, refuse two configs mapped to one file, then write) over a directory name -> File text | "
@@ -481,7 +547,18 @@ META = {
                   "code; fixes/C18-collision-realpath.patch). The model is tied to the real save by fault injection from "
                   "the harness in scratch directories with directory snapshots (model and spec agreement computed inside "
                   "Coq). The four defects of the pre-fix order (fixed in /repo) are kept as *_old_order_refuted regression "
-                  "witnesses about save_old, which is not the model of the current code.",
+                  "witnesses about save_old, which is not the model of the current code. Round 6: the FSSPEC BRANCH of save is "
+                  "inside the model (save_impl k i, k = TLocal | TFsspec; save_fsspec = the branch as it is: Path(path,'sw') "
+                  "opens the file for writing, no overwrite check, fsspec.open before dump). There (a) and (b) are FALSE: "
+                  "C18_fsspec_silent_overwrite_refuted, C18_fsspec_truncates_on_failure_refuted, "
+                  "C18_fsspec_multifile_refusal_truncates_refuted, and C18_fsspec_current_failure_empties_target (EVERY failing "
+                  "save through the branch leaves the target empty) - open finding fsspec-target-unprotected (class 2, replayed "
+                  "on the real code; fixes/C18-fsspec-target.patch). For the patched branch save_fsspec_fixed all statements are "
+                  "proved for every input (C18_fsspec_fixed_failed_save_changes_nothing, _no_silent_overwrite, "
+                  "_existing_target_refused, _multifile_refused_untouched, _only_target_touched, _save_then_parse), and for the "
+                  "whole implementation whichever way the target is resolved: C18_impl_fixed_failed_save_changes_nothing, "
+                  "C18_impl_fixed_no_silent_overwrite, C18_impl_fixed_meets_spec, C18_judge_fixed_sound (the judge bin/check "
+                  "uses), C18_judge_fsfixed_sound + C18_judge_fsfixed_no_class (the judge after the patch has no class left).",
     "level_note": "Proved: the statements above for the model. Only exercised by the correspondence: that the real save "
                   "performs exactly the modelled steps (result kind, directory afterwards), and that a successful save parses "
                   "back to the configuration (the theorem states which text is in which file; the serialise/parse round trip "
@@ -489,8 +566,11 @@ META = {
                   "model's faithfulness outside the exercised scenarios; validate, the serialiser and get_content are an "
                   "oracle whose answers are measured per case before the call. No axioms. Outside the statement: OS-level "
                   "failures between two writes of the final write loop, permission bits, symlinks among the directory "
-                  "entries, fsspec/URL targets.",
+                  "entries, remote (non-local fsspec / URL) targets, a missing directory under an fsspec target (fsspec creates "
+                  "it), a DIRECTORY named '-' as the target (Path skips its checks for '-').",
     "technique": "Rocq proof by induction over the step list / sub-file list (the check phase writes nothing; invariant on "
                  "the pending list: distinct names, each checked, each carrying the expected text; flush lemmas) + judge "
-                 "soundness theorem + fault-injection correspondence evaluated in Coq",
+                 "soundness theorem generic in the save function (judge_sound_core: any save with the four properties "
+                 "meets the spec) instantiated for the local branch, the current judge and the patched fsspec branch + "
+                 "fault-injection correspondence evaluated in Coq",
 }
